@@ -322,6 +322,15 @@ def currently_exiting_context(frame: types.FrameType) -> Optional[ExitingContext
             while code[offs] == op["CACHE"] and offs >= 2:
                 offs -= 2
             is_async = True
+        if code[offs] == op["CACHE"]:
+            # While the awaited __aexit__ is executing (rather than
+            # suspended), lasti rests on the inline cache entry that
+            # follows SEND in 3.12+
+            send_offs = offs
+            while send_offs >= 2 and code[send_offs] == op["CACHE"]:
+                send_offs -= 2
+            if code[send_offs] == op["SEND"]:
+                offs = send_offs
         if code[offs] == op["SEND"]:
             offs -= 2
             is_async = True
